@@ -1,9 +1,9 @@
 (* Properties_C13.v — C13: the object unmarshaller accepts exactly the token
-   streams that fit the target.  Statements only; proofs in ObjProof.v (more
-   are added as they land: acceptance of all renderings is the token
-   round-trip theorem of C01). *)
+   streams that fit the target.  Statements only; proofs in ObjProof.v (completion, error
+   position, framing) and RenderProof.v (acceptance of every rendering, the
+   documented rejections). *)
 From Coq Require Import List ZArith.
-Require Import Tok TokGrammar TokGrammarProof GoVal Marshal Unmarshal ObjProof.
+Require Import Tok TokGrammar TokGrammarProof GoVal Marshal Unmarshal ObjProof RoundTripProof RenderProof.
 Import ListNotations.
 Open Scope Z_scope.
 
@@ -31,19 +31,69 @@ Theorem C13_frame_err : forall E A f t cur ts k x,
 Proof. exact unmarshal_frame_err. Qed.
 Print Assumptions C13_frame_err.
 
+(* ---------- acceptance: EVERY rendering of a value that fits the target ------------------------------
+   [renders E A lax t v ts] (RenderProof.v): ts renders v at type t — container lengths exact or indefinite
+   (any declared length for arrays, slices and plain maps: it is never checked; exact or negative for struct
+   maps; -1 or 1 for unions), non-negative integers spelled Int or Uint, map entries and struct fields in any
+   order, fields behind nil embedded pointers absent, ignored keys anywhere, null for nil things and for a
+   zero struct, arbitrary tags on tokens into typed targets; with lax = true also omitempty fields present
+   although empty. *)
+Theorem C13_every_rendering_is_accepted : forall E A t v ts,
+  atlas_wf E A = true -> wt E A t v -> domb E A t v = true -> renders E A false t v ts ->
+  exists f' v', unmarshal E A f' t (zero 50 E t) ts = UOk v' [] /\ req E A t v v'.
+Proof. exact unmarshal_accepts_renderings. Qed.
+Theorem C13_every_rendering_is_accepted_lax : forall E A t v ts,
+  atlas_wf E A = true -> wt E A t v -> domb E A t v = true -> renders E A true t v ts ->
+  exists f' v', unmarshal E A f' t (zero 50 E t) ts = UOk v' [] /\ reqx E A true t v v' /\ wt E A t v'.
+Proof. exact unmarshal_accepts_renderings_lax. Qed.
+(* the relation is not too narrow: the marshaller's own output is one rendering *)
+Theorem C13_marshaller_output_is_a_rendering : forall E A t v f ts,
+  atlas_wf E A = true -> wt E A t v -> domb E A t v = true -> marshal A f t v = MOk ts ->
+  renders E A false t v ts.
+Proof. exact marshal_renders. Qed.
+Print Assumptions C13_every_rendering_is_accepted.
+
+(* ---------- rejection: what does not fit is an error on the offending token ------------------------- *)
+(* a first token the target kind does not take (first_ok is the table), never the other way round *)
+Theorem C13_wrong_token_kind_rejected : forall E A f k cur tk tg r,
+  kind_plain A k = true -> first_ok k tk = false ->
+  unmarshal_kind E A (S (S f)) k cur (Tok tk tg :: r) = UErr (S (length r)).
+Proof. exact reject_wrong_token_kind. Qed.
+Theorem C13_right_token_kind_not_rejected : forall E A f k cur tk tg r,
+  kind_plain A k = true -> first_ok k tk = true ->
+  unmarshal_kind E A (S f) k cur (Tok tk tg :: r) <> UErr (S (length r)).
+Proof. exact accept_right_token_kind. Qed.
+(* tags on tokens into typed targets are ignored *)
+Theorem C13_tag_ignored_on_typed_target : forall E A t f cur tk tg tg' r,
+  typed_target A t = true ->
+  unmarshal E A f t cur (Tok tk tg :: r) = unmarshal E A f t cur (Tok tk tg' :: r).
+Proof. exact tag_ignored_typed_target. Qed.
+(* after ANY rendered prefix of the container's content (statements in RenderProof.v, each ending in
+   "= UErr (S (length rest))", the offending token being the one before [rest]): *)
+Definition C13_unknown_field_rejected := @reject_unknown_field.          (* a key no field entry has *)
+Definition C13_length_mismatch_rejected := @reject_length_mismatch.      (* struct map: declared length <> entries, at the MapClose *)
+Definition C13_duplicate_map_key_rejected := @reject_duplicate_map_key.  (* maps (struct maps take the last one: struct_duplicate_key_last_wins) *)
+Definition C13_array_overflow_rejected := @reject_array_overflow.        (* more than n elements into [n]T *)
+Definition C13_short_array_padded := @array_short_padded.                (* fewer: accepted, zero-padded *)
+Definition C13_union_unknown_member_rejected := @reject_union_unknown_member.
+Definition C13_union_extra_entry_rejected := @reject_union_extra_entry.
+Print Assumptions C13_unknown_field_rejected.
+Print Assumptions C13_duplicate_map_key_rejected.
+Print Assumptions C13_union_extra_entry_rejected.
+
 (* documented rejections, evaluated by the kernel on a struct target *)
 Definition c13_A := Atlas [AE (GStruct 100) None (EStruct [FE [107] [0%nat] GStr false false])] 0.
 Definition c13_E : tenv := [(100, [GStr])].
-Example C13_unknown_field_rejected :
+Example C13_unknown_field_rejected_example :
   unmarshal_top c13_E c13_A (GStruct 100) [Tok (MapOpen (-1)) None; Tok (Str [120]) None; Tok (Str []) None; Tok MapClose None] = UTErr 2.
 Proof. vm_compute. reflexivity. Qed.
-Example C13_length_mismatch_rejected :
+Example C13_length_mismatch_rejected_example :
   unmarshal_top c13_E c13_A (GStruct 100) [Tok (MapOpen 2) None; Tok (Str [107]) None; Tok (Str []) None; Tok MapClose None] = UTErr 4.
 Proof. vm_compute. reflexivity. Qed.
-Example C13_duplicate_map_key_rejected :
+Example C13_duplicate_map_key_rejected_example :
   unmarshal_top [] (Atlas [] 0) (GMap GStr GBool)
     [Tok (MapOpen (-1)) None; Tok (Str [97]) None; Tok (Bool true) None; Tok (Str [97]) None; Tok (Bool true) None; Tok MapClose None] = UTErr 4.
 Proof. vm_compute. reflexivity. Qed.
-Example C13_array_overflow_rejected :
+Example C13_array_overflow_rejected_example :
   unmarshal_top [] (Atlas [] 0) (GArr 1 GBool) [Tok (ArrOpen (-1)) None; Tok (Bool true) None; Tok (Bool true) None; Tok ArrClose None] = UTErr 3.
 Proof. vm_compute. reflexivity. Qed.
